@@ -42,12 +42,41 @@ def dom(r, m):
     return 30 if m in (4, 6, 9, 11) else 31
 
 
-def class_tasks(facts, chunk=3300):
-    """task variants for the analysis pool"""
+ISO_T = '<date::Date as Trunc>::trunc_iso_year'
+ISO_R = '<date::Date as Round>::round_iso_year'
+E_J = 2440588
+
+
+def iso_windows():
+    """residue classes (of the Julian day number modulo the 400-year cycle) within a week of a 1 January, or next to a
+    1 July: where the ISO year can differ from the calendar year / where ISO-year rounding switches"""
+    out = set()
+    j = J_MIN                      # 0001-01-01
+    for y in range(1, 401):
+        for k in range(-7, 8):
+            out.add((j + k) % CYCLE_DAYS)
+        jul1 = j + (182 if leap(y % 400) else 181)
+        for k in (-1, 0, 1):
+            out.add((jul1 + k) % CYCLE_DAYS)
+        j += 366 if leap(y % 400) else 365
+    return sorted(out)
+
+
+def class_tasks(facts, full=False, chunk=3300):
+    """task variants for the analysis pool.  full: ISO-year units on all 146097 classes (thorough tier), otherwise on the
+    windows around 1 January / 1 July only"""
     if D2J not in facts.bodies or J2D not in facts.bodies:
         return []
     out = [f"kclass:d2j:{lo}:{min(lo + 100, 400)}" for lo in range(0, 400, 100)]
     out += [f"kclass:j2d:{lo}:{min(lo + chunk, CYCLE_DAYS)}" for lo in range(0, CYCLE_DAYS, chunk)]
+    for kind, key in (('isot', ISO_T), ('isor', ISO_R)):
+        if key not in facts.bodies:
+            continue
+        if full:
+            out += [f"kclass:{kind}:{lo}:{min(lo + 1000, CYCLE_DAYS)}" for lo in range(0, CYCLE_DAYS, 1000)]
+        else:
+            n = len(iso_windows())
+            out += [f"kclass:{kind}w:{lo}:{min(lo + 400, n)}" for lo in range(0, n, 400)]
     return out
 
 
@@ -85,6 +114,42 @@ def run_classes(I, variant):
                             ok = True
                     if not ok:
                         bad.append((r, m, f"{len(res)} exit(s): " + '; '.join(repr(v)[:120] for _, v in res[:2])))
+        elif kind.startswith('iso'):
+            from .values import VAdt
+            key = ISO_T if kind.startswith('isot') else ISO_R
+            classes = iso_windows()[lo:hi] if kind.endswith('w') else range(lo, hi)
+            dty = I.facts.body(key)['locals'][1]['ty']
+            for rp in classes:
+                clo = -((rp - J_MIN) // CYCLE_DAYS)
+                chi = (J_MAX - rp) // CYCLE_DAYS
+                if clo > chi:
+                    continue
+                st = State()
+                c = I.fresh_int(st, 'i32', 'cyc', clo, chi)
+                sc = c.form.terms[0][0]
+                res = I.call_local(st, key, [VAdt(dty, {0: (VInt(c.form.scale(CYCLE_DAYS).addc(rp - E_J), 'i32'),)})])
+                exits = []
+                ok = True
+                for (s2, v) in res:
+                    a, b = s2.num.rng(c.form)
+                    var = v.single() if isinstance(v, VAdt) else None
+                    if var == 0:
+                        inner = v.variants[0][0]
+                        f = inner.variants[0][0].form if isinstance(inner, VAdt) and inner.single() == 0 else None
+                        l = _lin(f, (sc,)) if f is not None else None
+                        if l is None:
+                            ok = False
+                            break
+                        exits.append(('ok', l[1].get(sc, 0), l[0] + E_J, a, b))
+                    elif var == 1:
+                        exits.append(('err', 0, 0, a, b))
+                    else:
+                        ok = False
+                        break
+                if ok:
+                    rows.append((rp, clo, chi, exits))
+                else:
+                    bad.append((rp, 0, f"{len(res)} exit(s): " + '; '.join(repr(v)[:160] for _, v in res[:2])))
         else:
             for rp in range(lo, hi):
                 clo = -((rp - J_MIN) // CYCLE_DAYS)          # ceil((J_MIN - rp) / CYCLE)
@@ -130,7 +195,7 @@ def contract(chunks):
                 if ka != CYCLE_DAYS or kd != 1:
                     lin_bad.append((r, m, ka, kd))
                 C[(r, m)] = c0
-        else:
+        elif ch['kind'] == 'j2d':
             covered['j2d'] += len(ch['rows'])
             j2d.extend(ch['rows'])
     rec(D2J, 'date2julian: every branch decided and the result linear in each of the 4800 residue classes (year mod 400, month)',
@@ -167,4 +232,66 @@ def contract(chunks):
         f"{covered['j2d']} classes analysed; irregular: {[b for k, b in shape_bad if k == 'j2d'][:3]}")
     rec(J2D, 'K-inv: julian2date is the inverse of date2julian on every day of 0001-01-01..=9999-12-31', not inv_bad and covered['j2d'] == CYCLE_DAYS,
         '; '.join(inv_bad[:4]) or 'table incomplete')
+    out.extend(iso_contract(chunks, C, {r[0]: r for r in j2d}))
+    return out
+
+
+def iso_contract(chunks, C, j2d):
+    """C10 / C11, ISO year: per residue class the result of trunc_iso_year / round_iso_year is 146097*c + const; the constant is
+    compared with the ISO-year starts computed here from the (validated) day-number table:
+    start(Y) = Monday on or before 4 January of year Y."""
+    out = []
+
+    def rec(prop, fn, clause, ok, detail=''):
+        out.append({'prop': prop, 'root': fn, 'clause': clause, 'ok': bool(ok), 'detail': '' if ok else detail})
+
+    def start(y0):
+        rr = y0 % 400
+        q = (y0 - rr) // 400
+        o = CYCLE_DAYS * q + C[(rr, 1)] + 4
+        return o - (o % 7)
+
+    for kind, key, prop in (('isot', ISO_T, 'C10'), ('isor', ISO_R, 'C11')):
+        rows = [r for ch in chunks if ch['kind'].startswith(kind) for r in ch['rows']]
+        badshape = [b for ch in chunks if ch['kind'].startswith(kind) for b in ch['bad']]
+        if not rows and not badshape:
+            continue
+        full = any(ch['kind'] == kind for ch in chunks)
+        scope = 'every day of the 400-year cycle' if full else 'every day within a week of a 1 January or next to a 1 July of the 400-year cycle'
+        name = key.split('::')[-1]
+        wrong = []
+        if len(C) != 4800:
+            wrong.append('day-number table incomplete')
+        else:
+            for (rp, clo, chi, exits) in rows:
+                jr = j2d.get(rp)
+                if jr is None:
+                    wrong.append(f"class {rp}: no calendar date")
+                    continue
+                _, _, y0, m, d = jr
+                cands = [start(y0 - 1), start(y0), start(y0 + 1)]
+                trunc = max(b for b in cands if b <= rp)
+                up = kind == 'isor' and m >= 7
+                want = start(y0 + 1) if up else trunc
+                cov = set()
+                for (k, coef, off, a, b) in exits:
+                    cov.update(range(a, b + 1))
+                    years = [400 * cc + y0 for cc in range(a, b + 1)]
+                    if k == 'ok':
+                        if coef != CYCLE_DAYS or off != want:
+                            wrong.append(f"{y0 % 400:03d}-{m:02d}-{d:02d} (year mod 400, class {rp}): result is day {off - rp:+d} relative to the input, the rule gives {want - rp:+d}")
+                        elif up and 9999 in years:
+                            wrong.append(f"class {rp}: year 9999 from July on must fail (the next ISO year starts after the maximum date)")
+                    else:
+                        if not (up and years == [9999]):
+                            wrong.append(f"class {rp} ({y0 % 400:03d}-{m:02d}-{d:02d}): fails for years {years[:3]}.. although the boundary is in range")
+                if cov != set(range(clo, chi + 1)):
+                    wrong.append(f"class {rp}: exits do not cover every 400-year cycle")
+        rec(prop, key, f"{name}: every branch decided, result 146097*c + constant in each analysed residue class", not badshape, f"irregular: {badshape[:3]}")
+        if kind == 'isot':
+            rec(prop, key, f"{name}: the latest ISO-year start (Monday on or before 4 January) not after the input, for {scope}", not wrong and rows, '; '.join(wrong[:4]))
+        else:
+            rec(prop, key, f"{name}: before July the truncation, from July on the start of the following ISO year (failing only for year 9999), for {scope}",
+                not wrong and rows, '; '.join(wrong[:4]))
+        rec(prop, key, f"{name}: classes analysed ({'all 146097' if full else 'windows'})", len(rows) >= (CYCLE_DAYS if full else 7000), f"{len(rows)} classes")
     return out
